@@ -133,6 +133,28 @@ func Apply(doc, query, update bsonkit.Doc, upsert bool, arrayFilters bsonkit.Lis
 	return changes, nil
 }
 
+// CheckUpdate will return an error if the update is malformed regardless of the
+// document it is applied to: no operators, unknown operators, operators without
+// a document of arguments or conflicting paths.
+func CheckUpdate(update bson.D) error {
+	// check update
+	if len(update) == 0 {
+		return fmt.Errorf("empty update document")
+	}
+
+	// check operators
+	for _, op := range update {
+		if FieldUpdateOperators[op.Key] == nil {
+			return fmt.Errorf("unknown top level operator %q", op.Key)
+		}
+		if _, ok := op.Value.(bson.D); !ok {
+			return fmt.Errorf("%s: expected document", op.Key)
+		}
+	}
+
+	return checkConflicts(update)
+}
+
 // hasPositionalOperator will return whether a path of the update includes a
 // positional operator.
 func hasPositionalOperator(update bson.D) bool {
